@@ -50,6 +50,8 @@ SPECS = [
     dict(name='igeos-moving', fam='riemann', solver=cat.RIEMANN_IG, params=dict(rl=2.0, ul=0.5, pl=3.0, gl=1.6, rr=0.5, ur=-0.3, pr=0.4, gr=1.3), pool=[0.1, 0.4, 0.6, 0.8, 0.95],
          times=[0.25, 0.1], tol=1e-12),
     dict(name='geneos-sod', fam='riemann', solver=cat.RIEMANN_GEN, params=dict(num_int_pts=401, num_x_pts=801), pool=[0.1, 0.4, 0.6, 0.8], times=[0.25, 0.1], tol=1e-9),
+    dict(name='geneos-sod-jwl', fam='riemann', solver=cat.RIEMANN_GEN, params=dict(num_int_pts=401, num_x_pts=801, problem='JWL', A=8.545, B=0.205, R1=4.6, R2=1.35, r0=1.84, e0=0.0),
+         pool=[0.1, 0.4, 0.6, 0.8], times=[0.25, 0.1], tol=1e-9),
     dict(name='sedov-spherical', fam='sedov', solver='exactpack.solvers.sedov.SphericalSedov', params={}, pool=[0.2, 0.5, 0.8, 0.95, 1.2], times=[1.0, 0.5], tol=1e-9, fixed_far=True),
     dict(name='sedov-planar-omega', fam='sedov', solver=cat.SEDOV, params=dict(geometry=1, gamma=1.6, omega=0.3, eblast=0.2), pool=[0.2, 0.5, 0.8, 0.95, 1.2], times=[1.0, 0.5], tol=1e-9,
          fixed_far=True),
@@ -57,7 +59,7 @@ SPECS = [
          fixed_far=True),
     dict(name='sedov-singular', fam='sedov', solver=cat.SEDOV, params=dict(geometry=3, gamma=1.4, omega=7.0 / 3.0), pool=[0.2, 0.5, 0.8, 0.95, 1.2], times=[1.0, 0.5], tol=1e-9,
          fixed_far=True),
-    dict(name='ehep', fam='ehep', solver=cat.EHEP, params={}, pool=[0.02, 0.4, 0.9, 1.3, 1.6, 1.9, 2.6, 3.0], times=[2.0, 0.7], tol=1e-13),
+    dict(name='ehep', fam='ehep', solver=cat.EHEP, params={}, pool=[0.02, 0.4, 0.0, 0.9, 1.0, 1.3, -0.1, 1.6, 1.9, 2.6, 3.0, 10.5, 0.2], times=[2.0, 0.7, 0.5], tol=1e-13),
     dict(name='ehep-piston', fam='ehep', solver=cat.EHEP, params=dict(up=0.1), pool=[0.02, 0.15, 0.4, 0.9, 1.3, 1.9, 2.6], times=[2.0, 0.7], tol=1e-13),
     dict(name='mader', fam='mader', solver=cat.MADER, params={}, pool=[0.0, 1.0, 2.0, 3.0, 4.0, 5.0], times=[6.25e-6, 3e-6], tol=1e-12, whole_pool=True),
     dict(name='piston', fam='piston', solver=cat.PISTON, params={}, pool=[0.05, 0.3, 0.45, 0.6, 0.9, 1.0], times=[1.2, 0.75], tol=1e-13, fixed_far=True),   # (documented: t <= max(x) / wv_el)
